@@ -17,11 +17,15 @@ import (
 	"time"
 	"unsafe"
 
+	metav1 "k8s.io/apimachinery/pkg/apis/meta/v1"
 	"k8s.io/apimachinery/pkg/labels"
+	kubefake "k8s.io/client-go/kubernetes/fake"
 	"k8s.io/client-go/tools/cache"
+	componentbaseconfig "k8s.io/component-base/config"
 
 	proxyv1alpha1 "github.com/kubewharf/kubegateway/pkg/apis/proxy/v1alpha1"
 	gatewayclientset "github.com/kubewharf/kubegateway/pkg/client/kubernetes"
+	gatewayfake "github.com/kubewharf/kubegateway/pkg/client/kubernetes/fake"
 	proxylisters "github.com/kubewharf/kubegateway/pkg/client/listers/proxy/v1alpha1"
 	"github.com/kubewharf/kubegateway/pkg/ratelimiter/limiter/elector"
 	"github.com/kubewharf/kubegateway/pkg/ratelimiter/options"
@@ -82,18 +86,30 @@ func VerifC18New(identity string, shardCount int) *VerifC18Rig {
 func VerifC18NewWith(identity string, shardCount int, storeKind string, client gatewayclientset.Interface) *VerifC18Rig {
 	indexer := cache.NewIndexer(cache.MetaNamespaceKeyFunc, cache.Indexers{})
 	el := &verifC18Elector{identity: identity, count: shardCount, led: map[int]bool{}}
-	r := &rateLimiter{
-		runId:              "verif",
-		identity:           identity,
-		shardCount:         shardCount,
-		limitOptions:       options.RateLimitOptions{LimitStore: storeKind, ShardingCount: shardCount, Identity: identity, K8sStoreSyncPeriod: 0},
-		gatewayClient:      client,
-		leaderElector:      el,
-		clientCache:        NewClientCache(),
-		limitStoreMap:      map[int]_interface.LimitStore{},
-		upstreamLock:       map[string]*sync.Mutex{},
-		upstreamController: &verifC18Controller{lister: proxylisters.NewUpstreamClusterLister(indexer)},
+	ctl := &verifC18Controller{lister: proxylisters.NewUpstreamClusterLister(indexer)}
+	opts := options.RateLimitOptions{LimitStore: storeKind, ShardingCount: shardCount, Identity: identity, K8sStoreSyncPeriod: 0,
+		LeaderElectionConfiguration: componentbaseconfig.LeaderElectionConfiguration{LeaderElect: true, ResourceLock: "leases",
+			ResourceNamespace: "kube-system", ResourceName: "verif-limiter",
+			LeaseDuration: metav1.Duration{Duration: 15 * time.Second}, RenewDeadline: metav1.Duration{Duration: 10 * time.Second},
+			RetryPeriod: metav1.Duration{Duration: 2 * time.Second}}}
+	// The limiter is built by the SHIPPED constructor (whatever it wires up - limiters, caches, defaults - is there), then
+	// its environment is replaced by the scripted one: the elector and the upstream controller. Nothing is started.
+	var r *rateLimiter
+	gw := client
+	if gw == nil {
+		gw = gatewayfake.NewSimpleClientset()
 	}
+	if rl, err := NewRateLimiter(gw, kubefake.NewSimpleClientset(), opts); err == nil {
+		r, _ = rl.(*rateLimiter)
+	}
+	if r == nil {
+		// the constructor could not be used without a cluster: fall back to the bare struct
+		r = &rateLimiter{runId: "verif", identity: identity, shardCount: shardCount, limitOptions: opts,
+			clientCache: NewClientCache(), limitStoreMap: map[int]_interface.LimitStore{}, upstreamLock: map[string]*sync.Mutex{}}
+	}
+	r.gatewayClient = client
+	r.leaderElector = el
+	r.upstreamController = ctl
 	return &VerifC18Rig{r: r, el: el, indexer: indexer, base: time.Unix(1700000000, 0)}
 }
 
